@@ -20,7 +20,9 @@ import re
 from hypothesis import strategies as st
 
 VAL_ALPHABET = "ab|+-. 1xyzé_"
-SYNTAXES = [None, "name_good", "name_warn", "error", "value", "text"]
+SYNTAXES = [None, "name_good", "name_warn", "error", "value", "text",
+            # names that are no accessors of the enum palette: ids of syntaxes of the colours configuration, unknown names
+            "WARN", "OK", "NAME", "TABLE.BORDER", "nosuch"]
 
 
 # ---------------------------------------------------------------------------
